@@ -28,7 +28,11 @@ RULE = ("Seeds of 16..64 bytes (every length in the quick tier's sweep at least 
         "4299..5000 digit characters (CPython's int() limit of 4300); the six spellings (m|M) x ('|h|H) of index lists "
         "up to 256 long incl. the boundary indexes; secure_secret_path for depths -1..100 with chosen randbelow results; "
         "get_private_key's f-string incl. negative / >= 2^31 account and address numbers; seeds of 0, 1, 15, 65, 128, "
-        "1000 bytes (no length check in the code); depth 255 -> 256; blind_xpub with 'm' as starting or secret path.")
+        "1000 bytes (no length check in the code); depth 255 -> 256; blind_xpub with 'm' as starting or secret path; "
+        "the 78-byte header with every field at its special values independently of the others (depth 0/1/255 x parent "
+        "fingerprint 00000000/ffffffff/random x child number 0/2^31-1/2^31/2^32-1 x chain code 00..00/ff..ff/random x "
+        "key 1/n-1/random), written by an independent Base58Check encoder: parse / raw_parse(network) -> print under all "
+        "20 prefixes, and child derivation (public, private, hardened) and blind_xpub starting from the PARSED keys.")
 TRUSTED = ["hashlib/hmac (HMAC-SHA512, SHA256, RIPEMD160): universally quantified functions in the theorems",
            "group laws of secp256k1 (record scalar_laws of Proofs/GroupHyp.v): explicit hypothesis of the "
            "derivation theorems, discharged on the toy curve"]
@@ -1165,7 +1169,201 @@ def p_int_digit_limit(nd):
     return None
 
 
-PROPS = {"int_digit_limit": p_int_digit_limit, "norm_meaning": p_norm_meaning, "text_spellings": p_text_spellings,
+# ---- the 78-byte header: every field at its special values independently of the others
+# (keys no derivation from a seed shows: depth > 0 under parent fingerprint 00000000 or ffffffff, child number
+# 2^32-1 at depth 255, an all-zero chain code, ... — assembled field by field, printed by the independent
+# Base58Check encoder above, never by the library)
+
+_Z4, _F4 = b"\x00" * 4, b"\xff" * 4
+# SLIP-0132 registry, written down here and not read from hd.py: (private prefix, public prefix), mainnet first
+_SLIP132_PAIRS = [("0488ade4", "0488b21e"), ("049d7878", "049d7cb2"), ("04b2430c", "04b24746"), ("0295b005", "0295b43f"),
+                  ("02aa7a99", "02aa7ed3"), ("04358394", "043587cf"), ("044a4e28", "044a5262"), ("045f18bc", "045f1cf6"),
+                  ("024285b5", "024289ef"), ("02575048", "02575483")]
+R_PRV = [bytes.fromhex(a) for a, _ in _SLIP132_PAIRS]
+R_PUB = [bytes.fromhex(b) for _, b in _SLIP132_PAIRS]
+_R_MAIN = set(R_PRV[:5]) | set(R_PUB[:5])
+HM_DEPTH = [0, 1, 255]
+HM_NUM = [0, H31 - 1, H31, 2 ** 32 - 1]
+
+
+def r_decompress(sec):
+    x = int.from_bytes(sec[1:], "big")
+    y = pow((x * x * x + 7) % _P, (_P + 1) // 4, _P)
+    if (y * y - x * x * x - 7) % _P or sec[0] not in (2, 3) or x >= _P:
+        raise ValueError("not a point")
+    return (x, y if (y & 1) == (sec[0] & 1) else _P - y)
+
+
+def _hdr_text(raw):
+    return (f"version {raw[:4].hex()}, depth {raw[4]}, parent fingerprint {raw[5:9].hex()}, child number "
+            f"{int.from_bytes(raw[9:13], 'big')}, chain code {raw[13:17].hex()}.., key {raw[45:50].hex()}..")
+
+
+def _bip32_calls_invalid(depth, pfp, num):
+    """BIP32 test vector 5: 'zero depth with non-zero parent fingerprint / non-zero index' are invalid keys.  /repo
+    accepts them today (pinned by the corr cases through the model); a parser that refuses them with ValueError is
+    conformant, so the predicates below demand of these keys only: refused cleanly, or preserved exactly."""
+    return depth == 0 and (pfp != _Z4 or num != 0)
+
+
+def p_xkey_header(raw, is_priv, nets):
+    """raw: 78-byte extended-key payload assembled by the generator field by field.  Its Base58Check string (independent
+    encoder) parses, through parse() and through raw_parse(stream, network) for every network index in nets (-1 =
+    None), into exactly the fields written; the network follows the SLIP-0132 prefix; the key prints back character
+    for character, under each of the other nine prefixes of its class too; a key constructed from the same fields
+    prints the same string; fingerprint / public side equal the independent reference"""
+    assert len(raw) == 78
+    ver, depth, pfp, num, cc, km = raw[:4], raw[4], raw[5:9], int.from_bytes(raw[9:13], "big"), raw[13:45], raw[45:]
+    s = r_b58check(raw)
+    cls = HDPrivateKey if is_priv else HDPublicKey
+    lenient = _bip32_calls_invalid(depth, pfp, num)
+    main = ver in _R_MAIN
+    entries = [("parse", None)] + [("raw_parse(network=%r)" % (None if n < 0 else NETS[n]), n) for n in nets]
+    if is_priv:
+        secret = int.from_bytes(km[1:], "big")
+        pt = r_point(secret)
+        sec = r_serP(pt)
+    else:
+        pt = r_decompress(km)
+        sec = km
+    for what, n in entries:
+        netarg = None if n is None or n < 0 else NETS[n]
+        try:
+            k = cls.parse(s) if n is None else cls.raw_parse(BytesIO(raw), network=netarg)
+        except Exception as e:  # noqa
+            if lenient and isinstance(e, ValueError):
+                continue
+            return f"{what} refuses the valid extended key {s} ({_hdr_text(raw)}): {type(e).__name__}: {e}"
+        if is_priv:
+            got = (k.priv_version, k.depth, k.parent_fingerprint, k.child_number, k.chain_code, k.private_key.secret)
+            want = (ver, depth, pfp, num, cc, secret)
+        else:
+            got = (k.pub_version, k.depth, k.parent_fingerprint, k.child_number, k.chain_code, _vpoint(k.point))
+            want = (ver, depth, pfp, num, cc, list(pt))
+        if got != want:
+            return f"{what} of {s} ({_hdr_text(raw)}) gives the fields {got}, written were {want}"
+        wnet = "mainnet" if main else (netarg or "testnet")
+        if k.network != wnet:
+            return f"{what} of {s} gives network {k.network!r}, the prefix {ver.hex()} says {wnet!r}"
+        back = k.xprv() if is_priv else k.xpub()
+        if back != s:
+            return f"{what} of {s} ({_hdr_text(raw)}) prints back as {back}"
+        for v in (R_PRV if is_priv else R_PUB) if n is None else ():
+            got = k.xprv(version=v) if is_priv else k.xpub(version=v)
+            if got != r_b58check(v + raw[4:]):
+                return f"{what} of {s} printed under the prefix {v.hex()} is {got}"
+        if k.fingerprint() != r_hash160(sec)[:4]:
+            return f"{what} of {s}: fingerprint() is not hash160(SEC)[:4]"
+        if is_priv:
+            dpub = R_PUB[0] if wnet == "mainnet" else R_PUB[5]      # pub_version=None: the default of the NETWORK
+            if k.xpub() != r_b58check(dpub + raw[4:45] + sec) or k.pub.xpub() != k.xpub():
+                return f"{what} of {s}: xpub() is not the same header over the public key under {dpub.hex()}"
+            if (k.pub.depth, k.pub.parent_fingerprint, k.pub.child_number, k.pub.chain_code, _vpoint(k.pub.point)) != \
+                    (depth, pfp, num, cc, list(pt)):
+                return f"{what} of {s}: the .pub copy carries other fields"
+            fresh = HDPrivateKey(k.private_key, cc, depth, pfp, num, wnet, priv_version=ver).xprv() if n is None else s
+        else:
+            if k.sec() != km:
+                return f"{what} of {s}: sec() differs from the key bytes"
+            fresh = HDPublicKey(S256Point(*pt), cc, depth, pfp, num, wnet, pub_version=ver).xpub() if n is None else s
+        if fresh != s:
+            return f"a key constructed from the fields ({_hdr_text(raw)}) prints {fresh}, the reference encoding is {s}"
+    return None
+
+
+def p_xkey_header_derive(hdr, secret, vi, i, hard):
+    """hdr: the 41 bytes depth || parent fingerprint || child number || chain code, any combination of special
+    values; the xpub and the xprv with this header over one key (independent encoder) are PARSED, and from the parsed
+    objects: public child i = reference CKDpub, hardened refused; private child i (hard = 0), i + 2^31 (hard = 1) or
+    both (hard = 2) = reference CKDpriv; public of the private child i = the public child; the children print as the reference strings (from
+    depth 255: cannot be printed); blind_xpub(xpub, a starting path of `depth` components, m/i) returns exactly the
+    child xpub and the combined path, with the empty secret path the xpub itself, and refuses a starting path of
+    another depth"""
+    pv, pb = R_PRV[vi % 10], R_PUB[vi % 10]
+    depth, pfp, num, cc = hdr[0], hdr[1:5], int.from_bytes(hdr[5:9], "big"), hdr[9:41]
+    pt = r_point(secret)
+    sec = r_serP(pt)
+    fp = r_hash160(sec)[:4]
+    xpub = r_b58check(pb + hdr + sec)
+    xprv = r_b58check(pv + hdr + b"\x00" + secret.to_bytes(32, "big"))
+    lenient = _bip32_calls_invalid(depth, pfp, num)
+    what = f"depth {depth}, parent fingerprint {pfp.hex()}, child number {num}, chain code {cc[:4].hex()}.."
+    try:
+        P = HDPublicKey.parse(xpub)
+        Q = HDPrivateKey.parse(xprv)
+    except Exception as e:  # noqa
+        if lenient and isinstance(e, ValueError):
+            return None
+        return f"valid extended key ({what}; {xpub} / {xprv}) refused by parse: {type(e).__name__}: {e}"
+    if _pubfields(Q.pub)[:6] != _pubfields(P)[:6]:
+        return f"{what}: the public part of the parsed xprv differs from the parsed xpub"
+    net = "mainnet" if vi % 10 < 5 else "testnet"
+    # public child
+    try:
+        cp = P.child(i)
+    except Exception as e:  # noqa
+        return f"{what}: public derivation of child {i} from the parsed xpub {xpub} raised {type(e).__name__}: {e}"
+    rp = r_ckd_pub(pt, cc, i)
+    want = (list(rp[0]), rp[1], depth + 1, fp, i, net, pb)
+    if _pubfields(cp) != want:
+        return f"{what}: public child {i} of the parsed xpub is {_pubfields(cp)}, the reference gives {want}"
+    for bad, f in ((i + H31, lambda: P.child(i + H31)), ("m/%dh" % i, lambda: P.traverse("m/%dh" % i)), (-1, lambda: P.child(-1))):
+        if not _raises(f):
+            return f"{what}: hardened / negative derivation {bad!r} from the parsed xpub was not refused"
+    # private children
+    kids = {}
+    for j in ((i, i + H31) if hard == 2 else (i + H31 * hard,)):
+        try:
+            cq = Q.child(j)
+        except Exception as e:  # noqa
+            return f"{what}: private derivation of child {j} from the parsed xprv {xprv} raised {type(e).__name__}: {e}"
+        rk, rc = r_ckd_priv(secret, cc, j)
+        got = (cq.private_key.secret, cq.chain_code, cq.depth, cq.parent_fingerprint, cq.child_number, cq.network, cq.priv_version)
+        if got != (rk, rc, depth + 1, fp, j, net, pv):
+            return f"{what}: private child {j} of the parsed xprv is {got}, the reference gives {(rk, rc, depth + 1, fp, j, net, pv)}"
+        kids[j] = (cq, rk, rc)
+    if i in kids:
+        cq, rk, rc = kids[i]
+        if _pubfields(cq.pub)[:5] != _pubfields(cp)[:5] or list(r_point(rk)) != _vpoint(cp.point) or rc != rp[1]:
+            return f"{what}: public key of the private child {i} differs from the public child {i}"
+    i4 = i.to_bytes(4, "big")
+    child_xpub = r_b58check(pb + bytes([(depth + 1) % 256]) + fp + i4 + rp[1] + r_serP(rp[0]))
+    sp = "m" + "/1h" * (depth - 1) + ("/%dh" % (num - H31) if num >= H31 else "/%d" % num) if depth else "m"
+    secret_path = "m/%d" % i
+    if depth < 255:
+        if cp.xpub() != child_xpub:
+            return f"{what}: public child {i} prints as {cp.xpub()}, the reference string is {child_xpub}"
+        for j, (cq, rk, rc) in kids.items():
+            want = r_b58check(pv + bytes([depth + 1]) + fp + j.to_bytes(4, "big") + rc + b"\x00" + rk.to_bytes(32, "big"))
+            if cq.xprv() != want:
+                return f"{what}: private child {j} prints as {cq.xprv()}, the reference string is {want}"
+        try:
+            r_ = blinding.blind_xpub(xpub, sp, secret_path)
+        except Exception as e:  # noqa
+            return f"{what}: blind_xpub({xpub}, {sp!r}, {secret_path!r}) raised {type(e).__name__}: {e}"
+        if r_ != {"blinded_child_xpub": child_xpub, "blinded_full_path": sp + "/%d" % i}:
+            return f"{what}: blind_xpub({xpub}, {sp!r}, {secret_path!r}) = {r_}, the key at the combined path is {child_xpub}"
+    else:
+        for f in [cp.xpub, lambda: blinding.blind_xpub(xpub, sp, secret_path)] + [kid[0].xprv for kid in kids.values()]:
+            try:
+                out = f()
+            except (ValueError, OverflowError):
+                continue
+            return f"{what}: a depth-256 key was serialised: {out!r}"
+    try:
+        r_ = blinding.blind_xpub(xpub, sp.upper().replace("H", "'") if vi % 2 else sp, "m")
+    except Exception as e:  # noqa
+        return f"{what}: blind_xpub({xpub}, {sp!r}, 'm') raised {type(e).__name__}: {e}"
+    if r_ != {"blinded_child_xpub": xpub, "blinded_full_path": sp}:
+        return f"{what}: blind_xpub({xpub}, {sp!r}, 'm') = {r_}"
+    for wrong in (sp + "/0", "m" if depth else "m/0h"):
+        if not _raises(blinding.blind_xpub, xpub, wrong, "m"):
+            return f"{what}: blind_xpub accepted the starting path {wrong!r} for a key of depth {depth}"
+    return None
+
+
+PROPS = {"xkey_header": p_xkey_header, "xkey_header_derive": p_xkey_header_derive,
+         "int_digit_limit": p_int_digit_limit, "norm_meaning": p_norm_meaning, "text_spellings": p_text_spellings,
          "secure_secret_path": p_secure_secret_path, "depth_overflow": p_depth_overflow,
          "blind_degenerate": p_blind_degenerate, "pub_reuse": p_pub_reuse, "priv_reuse": p_priv_reuse, "blind_history": p_blind_history,
          "commute": p_commute, "refuse": p_refuse, "compose": p_compose, "case_notation": p_case_notation,
@@ -1264,6 +1462,92 @@ def generate(ctx):
     ctx.label("bip32-test-vector-strings-kept", len(VECTORS))
     ctx.label("bip32-test-vector-strings-dropped-bad-checksum", VECTORS_DROPPED)
     yield ("prop", "vectors", [0])
+
+    # ---- the 78-byte header at its special values: depth 0/1/255 x parent fingerprint 00000000/ffffffff/random x
+    # child number 0/2^31-1/2^31/2^32-1 x chain code 00..00/ff..ff/random x key 1/n-1/random (both SEC parities),
+    # every field independently of the others (no derived key shows depth > 0 under fingerprint 00000000, ...).
+    # Public side (no scalar multiplication): the full product under all 10 public prefixes.  Private side and
+    # derivation / blinding FROM the parsed keys: a sub-family covering every pair of field values (quick), the
+    # full product (thorough).  Built with the independent encoder only.
+    hm_secs = [1, N - 1, r.randrange(2, N - 1), r.randrange(2, N - 1)]
+    hm_keys = [(k, r_point(k)) for k in hm_secs]
+
+    def hm_fp():
+        b = ctx.rbytes(4)
+        return b if b not in (_Z4, _F4) else b"\x12\x34\x56\x78"
+
+    combos = []
+    for a, d in enumerate(HM_DEPTH):
+        for b in range(3):
+            for c, n_ in enumerate(HM_NUM):
+                for e in range(3):
+                    combos.append((a, b, c, e, bytes([d]) + (_Z4, _F4, hm_fp())[b] + n_.to_bytes(4, "big") +
+                                   (b"\x00" * 32, b"\xff" * 32, ctx.rbytes(32))[e]))
+
+    def hm_class(h):
+        d, f, n_ = h[0], h[1:5], int.from_bytes(h[5:9], "big")
+        return "header-matrix/" + ("depth0-with-parent-or-index(BIP32-invalid)" if _bip32_calls_invalid(d, f, n_) else
+                                   "depth>0-parent-fp-00000000" if d and f == _Z4 else
+                                   "depth>0-parent-fp-ffffffff" if d and f == _F4 else
+                                   "master-shape" if d == 0 else "child-shape")
+
+    for ci, (a, b, c, e, h) in enumerate(combos):
+        for vi in range(10):
+            k, pt = hm_keys[(ci + vi) % 4]
+            raw = R_PUB[vi] + h + r_serP(pt)
+            ctx.label(hm_class(h))
+            yield ("corr", "parse_pub", [raw])
+            yield ("prop", "xkey_header", [raw, 0, [(ci + vi) % 5 - 1, (ci + vi + 2) % 5 - 1]])
+            if vi == ci % 10:
+                pa = [list(pt), h[9:41], h[0], h[1:5], int.from_bytes(h[5:9], "big"), ci % 4, R_PUB[vi]]
+                yield ("corr", "parse_pub_str", [r_b58check(raw)])
+                yield ("corr", "raw_parse_pub", [raw, [[], 0, 1, 2, 3, 4][ci % 6]])
+                yield ("corr", "xpub_raw", [pa, [[], R_PUB[(vi + 3) % 10]][ci % 2]])
+                yield ("corr", "xpub_str", [pa, []])
+                yield ("corr", "raw_serialize_pub", [pa])
+    # private side: first the 36 (depth, fingerprint, child number) triples with chain code and prefix chosen so
+    # that every pair (field value, chain-code class) and every (prefix, depth) / (prefix, fingerprint) pair occurs
+    first = [(ci, (c + 4 * a + 4 * b) % 10) for ci, (a, b, c, e, h) in enumerate(combos) if e == (a + b + c) % 3]
+    fset = set(first)
+    rest = [(ci, vi) for ci in range(len(combos)) for vi in range(10) if (ci, vi) not in fset]
+    r.shuffle(rest)
+    for j, (ci, vi) in enumerate((first + rest)[:ctx.n(36, 1080)]):
+        a, b, c, e, h = combos[ci]
+        k, pt = hm_keys[(ci + vi) % 4]
+        raw = R_PRV[vi] + h + b"\x00" + k.to_bytes(32, "big")
+        ctx.label(hm_class(h) + "/private")
+        yield ("prop", "xkey_header", [raw, 1, [[], [], [], [[-1, 0, 1, 2, 3][(j // 4) % 5]]][j % 4]])
+        kv = [k, h[9:41], h[0], h[1:5], int.from_bytes(h[5:9], "big"), j % 4, R_PRV[vi], R_PUB[(vi + j) % 10]]
+        if j % 4 == 0:
+            yield ("corr", "parse_priv", [raw])
+        elif j % 12 == 1:
+            yield ("corr", "raw_parse_priv", [raw, [[], 0, 1, 2, 3][j % 5]])
+        elif j % 12 == 5:
+            yield ("corr", "parse_priv_str", [r_b58check(raw)])
+        elif j % 12 == 9:
+            yield ("corr", "xprv_raw", [kv, []])
+    # derivation and blinding FROM parsed keys: first every (depth, fingerprint) pair twice, child number and chain
+    # code rotating, then the rest of the product
+    dfirst = [ci for ci, (a, b, c, e, h) in enumerate(combos) if (c == (a + b) % 4 and e == (a + 2 * b) % 3)] + \
+             [ci for ci, (a, b, c, e, h) in enumerate(combos) if (c == (a + b + 2) % 4 and e == (a + 2 * b + 1) % 3)]
+    dset = set(dfirst)
+    drest = [ci for ci in range(len(combos)) if ci not in dset]
+    r.shuffle(drest)
+    for j, ci in enumerate((dfirst + drest)[:ctx.n(10, 108)]):
+        a, b, c, e, h = combos[ci]
+        k, pt = hm_keys[(ci + j) % 4]
+        i = [0, 1, H31 - 1][j] if j < 3 else ridx(r, hardened_ok=False)
+        ctx.label(hm_class(h) + "/derive+blind-from-parsed")
+        yield ("prop", "xkey_header_derive", [h, k, j + a, i, j % 2 if ctx.tier == "quick" else 2])
+        depth, num = h[0], int.from_bytes(h[5:9], "big")
+        pa = [list(pt), h[9:41], depth, h[1:5], num, [0, 1][(j + a) % 10 >= 5], R_PUB[(j + a) % 10]]
+        if j % 3 == 0:
+            sp = "m" + "/1h" * (depth - 1) + ("/%dh" % (num - H31) if num >= H31 else "/%d" % num) if depth else "m"
+            yield ("corr", "blind_xpub", [pa[6] + h + r_serP(pt), sp, "m/%d" % i])
+        elif j % 3 == 1:
+            yield ("corr", "child_pub", [pa, i])
+        elif j % 12 == 2:
+            yield ("corr", "child_priv", [[k, h[9:41], depth, h[1:5], num, pa[5], R_PRV[(j + a) % 10], pa[6]], i + H31 * (j % 2)])
 
     # ---- text level: int(), path parsing through the real traverse loops, validity, combination (cheap)
     ints = ["0", "1", "007", "1_0", "_1", "1_", "1__0", "+3", "-3", "-0", " 4", "4 ", "\t5\n", "\x1c6", "6\x1f", "", " ",
